@@ -21,13 +21,19 @@ def validate_tree(tree, ref, word, allow_eps_leaf_variable=True, max_nodes=5000)
     order = []
 
     def walk(node):
+        """pre-order, left to right; a node that is its own ancestor is a cycle (a violation); the same
+        sub-tree object used at two places (e.g. one epsilon sub-tree shared by two sons) is not demanded
+        to be duplicated by the property and is accepted"""
         nonlocal count
-        todo = [node]
+        onpath = set()
+        todo = [("enter", node)]
         while todo:
-            n = todo.pop()
-            if id(n) in seen:
-                return "shared-or-cyclic-subtree"
-            seen.add(id(n))
+            what, n = todo.pop()
+            if what == "leave":
+                onpath.discard(id(n))
+                continue
+            if id(n) in onpath:
+                return "cyclic-tree"
             count += 1
             if count > max_nodes:
                 return "tree-too-large"
@@ -39,7 +45,10 @@ def validate_tree(tree, ref, word, allow_eps_leaf_variable=True, max_nodes=5000)
                 body = tuple(node_sym(s.value) for s in sons)
                 if (sym[1], body) not in prods:
                     return "node-is-not-a-production"
-                todo.extend(reversed(sons))
+                onpath.add(id(n))
+                todo.append(("leave", n))
+                for s_ in reversed(sons):
+                    todo.append(("enter", s_))
             else:
                 if sym[0] == "V":
                     if (sym[1], ()) not in prods:
